@@ -74,6 +74,7 @@ ClauseS(x, o, prev, Q, P) ==
    ELSE IF o.r # 0 /\ (o.st # prev.st \/ o.sm # prev.sm) THEN <<"S", "reject-unchanged", "stored-changed">>
    ELSE IF o.r # 0 /\ o.pr # <<>> /\ prev.pr # <<>> /\ o.pr # prev.pr
         THEN <<"S", "reject-unchanged", Feat(ChangedProbes(o, prev), P)>>
+   ELSE IF \E j \in DOMAIN o.pr : o.pr[j][2] = 2 THEN <<"S", "exception-class", "probe">>
    ELSE LET m == SpecProbeBad(o, P) IN
         IF m # {} THEN <<"S", "spec-probe", Feat(m, P)>> ELSE <<>>
 
